@@ -78,12 +78,16 @@ pub fn build(dir: &str, init: &str, masked: bool, ph: &Phrases) -> (World, Roles
 	create_wallet_from(&mut w, "w1", masked, &ph.w1);
 	create_wallet_from(&mut w, "w2", false, &ph.w2);
 	create_wallet_from(&mut w, "wo", true, &ph.wo);
+	// one refresh per coinbase: the log ids of coinbases confirmed by the same refresh follow a
+	// HashMap iteration order (updater::apply_api_outputs) and would differ between the twins
 	for _ in 0..2 {
 		must(w.mine(Some("w2"), &[]), "mine w2");
+		must(w.refresh("w2", 1), "refresh w2");
 	}
 	if init != "fresh" {
 		for _ in 0..2 {
 			must(w.mine(Some("w1"), &[]), "mine w1");
+			must(w.refresh("w1", 1), "refresh w1");
 		}
 	}
 	for _ in 0..3 {
